@@ -8,6 +8,7 @@ CONSTANTS
   KeySp = {"targetname", "TargetName"}
   Prefixes = {"", "a"}
   IterOps = {"create_ent", "remove_ent", "set_class", "set_name", "clear"}
+  ScanKinds = {"search_star", "search_exact", "items_class", "items_target"}
   CopyMaps = {"m1", "m2"}
   PClass = {"c", "C"}
   PNames = {"", "a", "A"}
